@@ -87,8 +87,23 @@ for n in ZK:
             out.append('//@   modifies hstate(hash)')
         if has_empty and recvtype == 'Proof':
             req.append('(p != nil ==> shaped(p))')
+        cov = []
+        if fname == 'challenge':
+            # Fiat-Shamir coverage (C10): every field of the public statement and of the commitment is absorbed
+            has_pub = any(pp.strip().startswith('public ') for pp in params.split(','))
+            cparam = [pp.strip() for pp in params.split(',') if pp.strip().startswith('commitment ')]
+            if has_pub:
+                for nm, ty in fields('Public'):
+                    cov.append('public.%s' % nm)
+            if cparam:
+                for nm, ty in fields('Commitment'):
+                    cov.append('commitment.%s' % nm)
         if req:
             out.append('//@   requires ' + ' && '.join(r for r in req if r))
+        if cov:
+            out.append('//@   use absorb')
+            for c in cov:
+                out.append('//@   ensures[C10] result1 == nil ==> absorbed(hstate(hash), habs(iface(%s)))' % c)
         out.append('')
     path = '%s/pkg/zk/%s/zz_contracts_verif.go' % (REPO, n)
     open(path, 'w').write('\n'.join(out))
